@@ -165,17 +165,33 @@ pub fn run(ctx: &Ctx) -> ! {
         },
         &|_text, _p| {},
     );
+    // second space: every query within 1 deviation (thorough: 2, strided datasets) over the
+    // exhaustive family of graphs with at most two vertices (D-tiny): the "every finite dataset"
+    // quantifier, bounded.
+    let tiny: Vec<Arc<crate::dataset::Dataset>> = crate::dataset::tiny_family().into_iter().map(Arc::new).collect();
+    let tiny_total = tiny.len();
+    let stride = ctx.tier.pick(4usize, 1usize);
+    let uni_tiny = Universe { world: uni.world.clone(), schema: engine::parse_schema(crate::dataset::SVERIF_TEXT), datasets: tiny.into_iter().enumerate().filter(|(k, _)| k % stride == 0).map(|(_, d)| d).collect() };
+    let mut cfg_t = CorpusCfg::new(1);
+    cfg_t.gen.naming_devs = false;
+    cfg_t.max_arg_maps = 2;
+    let stats_tiny = if ctx.elapsed() < ctx.budget_s() {
+        Some(corpus::drive(ctx, &uni_tiny, &cfg_t, &|_cq| {}, &|case| check_case(ctx, &uni_tiny, case, &counters, &samples), &|_text, _p| {}))
+    } else {
+        None
+    };
     let mut c = cov();
-    c.insert("evaluations".into(), json!(stats.cases));
+    c.insert("corpus_tiny_datasets".into(), json!({"family_size": tiny_total, "datasets_used": uni_tiny.datasets.len(), "stats": stats_tiny.as_ref().map(|s| s.to_json())}));
+    c.insert("evaluations".into(), json!(stats.cases + stats_tiny.as_ref().map(|s| s.cases).unwrap_or(0)));
     c.insert("distinct_nontrivial".into(), json!(nontrivial.lock().unwrap().len()));
-    c.insert("rule".into(), json!("every query within k deviations of the skeletons (menu in DESIGN.md 3.3) accepted by the real frontend x 10 curated datasets x every argument map over the per-variable domains; engine rows (multiset) compared with the reference evaluator; non-trivial = distinct (query, dataset) pairs whose query has at least one of optional/fold/recurse/tag"));
+    c.insert("rule".into(), json!("every query within k deviations of the skeletons (menu in DESIGN.md 3.3) accepted by the real frontend x 10 curated datasets x every argument map over the per-variable domains, plus every query within 1 deviation x the exhaustive family of graphs with <= 2 vertices (5220 graphs; every 4th in the quick tier); engine rows (multiset) compared with the reference evaluator; non-trivial = distinct (query, dataset) pairs whose query has at least one of optional/fold/recurse/tag"));
     c.insert("corpus".into(), stats.to_json());
     c.insert("cases_compared".into(), json!(counters.executed.load(Ordering::Relaxed)));
     c.insert("cases_with_nonempty_expected_rows".into(), json!(counters.nonempty.load(Ordering::Relaxed)));
     c.insert("cases_skipped_oracle_undefined".into(), json!(counters.undefined.load(Ordering::Relaxed)));
     c.insert("cases_rejected_by_argument_validation".into(), json!(counters.arg_rejected.load(Ordering::Relaxed)));
     c.insert("samples".into(), json!(samples.lock().unwrap().items));
-    c.insert("exhaustive".into(), json!(!stats.capped));
+    c.insert("exhaustive".into(), json!(!stats.capped && stats_tiny.as_ref().map(|s| !s.capped).unwrap_or(false)));
     ctx.finish(
         "exploration",
         c,
